@@ -740,6 +740,13 @@ impl<'s> Tokenizer<'s> {
                 let mut result = &self.rest()[..end];
                 self.advance(end);
                 let span = self.span(old_loc);
+                // like for any other block tag, blanks are only stripped when
+                // they reach back to the start of a line of the source.
+                let lstrip = should_lstrip_block(
+                    self.ws_config.lstrip_blocks,
+                    StartMarker::Block,
+                    &self.source[..self.current_offset],
+                );
                 self.advance(self.block_start().len() + endraw);
                 match ws_start {
                     Whitespace::Default if self.ws_config.trim_blocks => {
@@ -756,7 +763,7 @@ impl<'s> Tokenizer<'s> {
                     _ => {}
                 }
                 result = match ws {
-                    Whitespace::Default if self.ws_config.lstrip_blocks => lstrip_block(result),
+                    Whitespace::Default if lstrip => lstrip_block(result),
                     Whitespace::Remove => result.trim_end(),
                     _ => result,
                 };
